@@ -272,6 +272,7 @@ def tr_eval(s):
 
 # ===================================================================== models
 import json as _json  # noqa: E402
+import zlib  # noqa: E402
 import random as _random  # noqa: E402
 from penman.model import Model  # noqa: E402
 from penman.models import amr as _amr, noop as _noop  # noqa: E402
@@ -283,9 +284,17 @@ with open(os.path.join(_SPEC, 'models.json')) as _f:
 
 
 def model_from_raw(raw):
+    # 'rx' (implementation side only): some literal roles of the table are declared through one regular-expression key,
+    # as the documentation of role tables allows; the specification sees the same roles as literals
     roles = {}
+    grouped = set()
+    for rx, members in raw.get('rx', []):
+        assert set(members) <= set(raw['lits'])
+        roles[rx] = {}
+        grouped.update(members)
     for lit in raw['lits']:
-        roles[lit] = {}
+        if lit not in grouped:
+            roles[lit] = {}
     for prefix, mult in raw['pats']:
         roles[prefix + ('[0-9]+' if mult == 'many' else '[0-9]')] = {}
     kw = dict(roles=roles, normalizations={k: v for k, v in raw['norm']},
@@ -309,8 +318,46 @@ def get_model(name, mdl=None):
 def _mfields(t, model, mdl):
     t['model'] = model
     if model == 'custom':
-        t['mdl'] = mdl
+        t['mdl'] = {k: v for k, v in mdl.items() if k != 'rx'}
     return t
+
+
+def _node_roles(node, acc=None):
+    acc = set() if acc is None else acc
+    for role, tgt in node[1]:
+        if role != '/':
+            acc.add(role.partition('~')[0])
+        if isinstance(tgt, (list, tuple)):
+            _node_roles(tgt, acc)
+    return acc
+
+
+def warm_model(m, roles, salt=''):
+    """A model object in use: before the call under test the model's documented queries (which promise no effect) are
+    asked about the roles of the input, their inverses and de-inverted forms - for every other input (by a hash of the
+    roles), so that fresh and used model objects are both driven."""
+    roles = sorted({r if r.startswith(':') else ':' + r for r in roles if isinstance(r, str)})
+    if zlib.crc32((salt + '|'.join(roles)).encode('utf-8', 'replace')) % 2:
+        return False
+    probe = []
+    for r in roles:
+        probe += [r, r + '-of'] + ([r[:-3]] if r.endswith('-of') else [])
+    try:
+        for r in probe:
+            m.has_role(r)
+            m.is_role_inverted(r)
+            m.invert_role(r)
+            m.canonicalize_role(r)
+            m.is_role_reifiable(r)
+            m.canonical_order(r)
+            m.alphanumeric_order(r)
+            m.invert(('p', r, 'q'))
+            m.deinvert(('p', r, 'q'))
+        g = Graph([('p', ':instance', 'probe')] + [('p', r, 'q' if i % 2 else 5) for i, r in enumerate(probe)] + [('q', ':instance', None)])
+        m.errors(g)
+    except Exception:  # noqa
+        pass
+    return True
 
 
 def _exc_out(e):
@@ -321,6 +368,7 @@ def _exc_out(e):
 def tr_interpret(node, meta=None, model='default', mdl=None):
     node = to_node(node)
     m = get_model(model, mdl)
+    warm_model(m, _node_roles(node), 'tr_interpret')
     t = _mfields({'kind': 'interpret', 'tree': ab.check_tree_roundtrip(node, meta)}, model, mdl)
     ok, g = guarded(layout.interpret, Tree(node, metadata=dict(meta or {})), m)
     if not ok:
@@ -342,6 +390,7 @@ def tr_interpret(node, meta=None, model='default', mdl=None):
 def tr_roundtrip(node, meta=None, model='default', mdl=None):
     node = to_node(node)
     m = get_model(model, mdl)
+    warm_model(m, _node_roles(node), 'tr_roundtrip')
     tree = Tree(node, metadata=dict(meta or {}))
     t = _mfields({'kind': 'roundtrip', 'tree': ab.check_tree_roundtrip(node, meta)}, model, mdl)
     t['t2'] = {'ok': False, 'exc': 'not run'}
@@ -401,6 +450,7 @@ def key_fn(m, key, seed=0):
 
 def tr_encode(tr, epi=None, xtop=None, topreq=None, model='default', mdl=None, op='configure', key='none', seed=0):
     m = get_model(model, mdl)
+    warm_model(m, [t[1] for t in tr], 'tr_encode')
     g = build_graph(tr, epi, xtop)
     before = ab.graph_to_json(g)
     t = _mfields({'kind': 'encode', 'g': before, 'topreq': ab.atom(topreq), 'op': op, 'key': key}, model, mdl)
@@ -449,6 +499,7 @@ def tr_encode(tr, epi=None, xtop=None, topreq=None, model='default', mdl=None, o
 def tr_rearrange(node, meta=None, key='none', af=False, model='default', mdl=None, seed=0):
     node = to_node(node)
     m = get_model(model, mdl)
+    warm_model(m, _node_roles(node), 'tr_rearrange')
     t = _mfields({'kind': 'rearrange', 'tree': ab.check_tree_roundtrip(node, meta), 'key': key, 'af': bool(af), 'exc': ''}, model, mdl)
     import copy
     tree = Tree(copy.deepcopy(node), metadata=dict(meta or {}))
@@ -472,6 +523,7 @@ def _diag(g):
 def tr_diag(node, meta=None, model='default', mdl=None):
     node = to_node(node)
     m = get_model(model, mdl)
+    warm_model(m, _node_roles(node), 'tr_diag')
     t = _mfields({'kind': 'diag', 'tree': ab.check_tree_roundtrip(node, meta), 'exc': '', 'ctx': [], 'pushed': [], 'inv': [],
                   'tr': [], 'bare': {'exc': 'not run', 'ctx': [], 'pushed': [], 'inv': []}}, model, mdl)
     ok, g = guarded(layout.interpret, Tree(node, metadata=dict(meta or {})), m)
@@ -540,6 +592,7 @@ def tr_roles(role, model='default', mdl=None):
 def tr_canontree(node, meta=None, model='default', mdl=None):
     node = to_node(node)
     m = get_model(model, mdl)
+    warm_model(m, _node_roles(node), 'tr_canontree')
     t = _mfields({'kind': 'canontree', 'tree': ab.check_tree_roundtrip(node, meta), 'exc': ''}, model, mdl)
     tree = Tree(node, metadata=dict(meta or {}))
     ok, r = guarded(transform.canonicalize_roles, tree, m)
@@ -558,6 +611,7 @@ def tr_canontree(node, meta=None, model='default', mdl=None):
 def tr_errors(tr, xtop=None, model='default', mdl=None, decoded_from=None):
     """Either a triple list (+ explicit top) or, with decoded_from, a text to decode first."""
     m = get_model(model, mdl)
+    warm_model(m, [t[1] for t in tr or []], 'tr_errors')
     if decoded_from is not None:
         g = penman.PENMANCodec(model=m).decode(decoded_from)
     else:
@@ -621,6 +675,15 @@ def tr_ghist(acts):
                 pool.append(pool[a['i'] - 1] - pool[a['j'] - 1])
             elif op == 'isub':
                 pool[a['i'] - 1] -= pool[a['j'] - 1]
+            elif op == 'edit':
+                g, t = pool[a['i'] - 1], tuple(_u(x) for x in a['tr'][0])
+                if a['k'] <= len(g.triples):
+                    old = g.triples[a['k'] - 1]
+                    g.triples[a['k'] - 1] = t
+                    if old not in g.triples:
+                        g.epidata.pop(old, None)
+                else:
+                    g.triples.append(t)
         except GraphError:
             res = 'GraphError'
         except Hang:
@@ -680,6 +743,7 @@ _OPS = {'reify_edges': lambda g, m: transform.reify_edges(g, m), 'dereify_edges'
 
 def tr_program(node, ops, model='default', mdl=None, start=None):
     m = get_model(model, mdl)
+    warm_model(m, _node_roles(node), 'tr_program')
     g = _start_graph(node, m, start)
     t = _mfields({'kind': 'program', 'g0': _g3(g), 'ops': list(ops), 'steps': []}, model, mdl)
     for op in ops:
@@ -701,6 +765,7 @@ def tr_program(node, ops, model='default', mdl=None, start=None):
 
 def tr_inverse(node, model='amr', mdl=None, start=None):
     m = get_model(model, mdl)
+    warm_model(m, _node_roles(node), 'tr_inverse')
     g = _start_graph(node, m, start)
     t = _mfields({'kind': 'inverse', 'g': _g3(g), 'g1': _g3(g), 'g2': _g3(g), 'text0': '', 'text2': '', 'exc': ''}, model, mdl)
 
@@ -720,6 +785,7 @@ def tr_inverse(node, model='amr', mdl=None, start=None):
 
 def tr_dereify(node, model='amr', mdl=None, start=None):
     m = get_model(model, mdl)
+    warm_model(m, _node_roles(node), 'tr_dereify')
     g = _start_graph(node, m, start)
     t = _mfields({'kind': 'dereify', 'g': _g3(g), 'out': _g3(g), 'exc': ''}, model, mdl)
     ok, r = guarded(transform.dereify_edges, g, m)
@@ -805,61 +871,84 @@ def _cli_model(name):
     return get_model('miniamr' if name == 'file' else name)
 
 
-def run_pipeline(plan, inputs):
-    """The documented library pipeline, executed from the stage list the specification exported."""
+def _run_stages(plan, t):
+    """The stage list the specification exported, applied to one parsed tree: (text, 1 if --check found errors else 0)."""
+    g = None
+    s = None
+    bad = 0
+    for st in plan['stages']:
+        m = _cli_model(st['model'])
+        fn = st['fn']
+        if fn == 'canonicalize_roles':
+            t = transform.canonicalize_roles(t, m)
+        elif fn == 'interpret':
+            g = layout.interpret(t, m)
+        elif fn == 'reify_edges':
+            g = transform.reify_edges(g, m)
+        elif fn == 'dereify_edges':
+            g = transform.dereify_edges(g, m)
+        elif fn == 'reify_attributes':
+            g = transform.reify_attributes(g)
+        elif fn == 'indicate_branches':
+            g = transform.indicate_branches(g, m)
+        elif fn == 'check':
+            errs = m.errors(g)
+            if errs:
+                bad = 1
+                # every offending context is recorded as error-N metadata (one entry per context)
+                for n, (ctx, msgs) in enumerate(errs.items(), 1):
+                    prefix = '({}) '.format(' '.join(map(str, ctx))) if ctx else ''
+                    g.metadata[f'error-{n}'] = prefix + msgs[-1]
+        elif fn in ('configure', 'reconfigure'):
+            if fn == 'configure':
+                t = layout.configure(g, model=m)
+            else:
+                fns = [getattr(m, k) for k in st['keys']]
+                t = layout.reconfigure(g, model=m, key=lambda role, fns=fns: [f(role) for f in fns])
+        elif fn == 'rearrange':
+            fns = [getattr(m, k) for k in st['keys']]
+            layout.rearrange(t, key=lambda role, fns=fns: [f(role) for f in fns], attributes_first=st['af'])
+        elif fn == 'reset_variables':
+            t.reset_variables(st['arg'])
+        elif fn == 'format':
+            ind = None if st['arg'] == 'none' else int(st['arg'])
+            s = penman.format(t, indent=ind, compact=st['flag'])
+        elif fn == 'format_triples':
+            s = penman.format_triples(g.triples, indent=st['flag'])
+    return s, bad
+
+
+def run_pipeline(plan, inputs, isolated=False):
+    """The documented library pipeline, executed from the stage list the specification exported.  With *isolated* every
+    graph is processed by an interpreter of its own (harness.iso_worker), so that the reference for a graph cannot depend
+    on the graphs processed before it."""
     out = []
     exitcode = 0
     res = {'out': '', 'exit': 0, 'exc': ''}
     try:
         signal.setitimer(signal.ITIMER_VIRTUAL, 20)
-        for text in inputs:
+        for i, text in enumerate(inputs):
             first = True
-            for t in penman.iterparse(text.splitlines(True) if False else io.StringIO(text)):
+            for k, t in enumerate(penman.iterparse(io.StringIO(text))):
                 if not first and plan['blank_between_graphs']:
                     out.append('\n')
                 first = False
-                g = None
-                s = None
-                for st in plan['stages']:
-                    m = _cli_model(st['model'])
-                    fn = st['fn']
-                    if fn == 'canonicalize_roles':
-                        t = transform.canonicalize_roles(t, m)
-                    elif fn == 'interpret':
-                        g = layout.interpret(t, m)
-                    elif fn == 'reify_edges':
-                        g = transform.reify_edges(g, m)
-                    elif fn == 'dereify_edges':
-                        g = transform.dereify_edges(g, m)
-                    elif fn == 'reify_attributes':
-                        g = transform.reify_attributes(g)
-                    elif fn == 'indicate_branches':
-                        g = transform.indicate_branches(g, m)
-                    elif fn == 'check':
-                        errs = m.errors(g)
-                        if errs:
-                            exitcode = 1
-                            # every offending context is recorded as error-N metadata (one entry per context)
-                            for n, (ctx, msgs) in enumerate(errs.items(), 1):
-                                prefix = '({}) '.format(' '.join(map(str, ctx))) if ctx else ''
-                                g.metadata[f'error-{n}'] = prefix + msgs[-1]
-                    elif fn in ('configure', 'reconfigure'):
-                        if fn == 'configure':
-                            t = layout.configure(g, model=m)
-                        else:
-                            fns = [getattr(m, k) for k in st['keys']]
-                            t = layout.reconfigure(g, model=m, key=lambda role, fns=fns: [f(role) for f in fns])
-                    elif fn == 'rearrange':
-                        fns = [getattr(m, k) for k in st['keys']]
-                        layout.rearrange(t, key=lambda role, fns=fns: [f(role) for f in fns], attributes_first=st['af'])
-                    elif fn == 'reset_variables':
-                        t.reset_variables(st['arg'])
-                    elif fn == 'format':
-                        ind = None if st['arg'] == 'none' else int(st['arg'])
-                        s = penman.format(t, indent=ind, compact=st['flag'])
-                    elif fn == 'format_triples':
-                        s = penman.format_triples(g.triples, indent=st['flag'])
+                if isolated:
+                    signal.setitimer(signal.ITIMER_VIRTUAL, 0)
+                    p = subprocess.run([sys.executable, '-B', '-m', 'harness.iso_worker'], input=_json.dumps({'plan': plan, 'text': text, 'k': k}),
+                                       capture_output=True, text=True, encoding='utf-8', timeout=120,
+                                       cwd=os.path.dirname(_SPEC), env=dict(os.environ, PYTHONIOENCODING='utf-8'))
+                    r = _json.loads(p.stdout.strip().splitlines()[-1])
+                    if r['exc']:
+                        res['exc'] = r['exc']
+                        break
+                    s, bad = r['s'], r['bad']
+                else:
+                    s, bad = _run_stages(plan, t)
+                exitcode |= bad
                 out.append(s + '\n')
+            if res['exc']:
+                break
     except Hang:
         res['exc'] = 'Hang'
     except Exception as e:  # noqa
@@ -884,7 +973,7 @@ def _strip_format(args):
     return [a for a in args if a not in _FMT_ARGS and not a.startswith('--indent')]
 
 
-def tr_cli(plan, inputs, model, stdin=False, subproc=False, wellformed=True):
+def tr_cli(plan, inputs, model, stdin=False, subproc=False, wellformed=True, isolated=False):
     m = _cli_model(model)
     t = {'kind': 'cli', 'plan': plan, 'model': model, 'stdin': bool(stdin), 'subproc': bool(subproc), 'input_wellformed': bool(wellformed),
          'ninputs': len(inputs), 'max_errors': 0}
@@ -893,7 +982,7 @@ def tr_cli(plan, inputs, model, stdin=False, subproc=False, wellformed=True):
     t['tool'] = run_tool(plan['args'], inputs, stdin, subproc)
     if plan['random']:
         _random.seed(12345)
-    t['lib'] = run_pipeline(plan, inputs)
+    t['lib'] = run_pipeline(plan, inputs, isolated and not plan['random'])
     t['in_graphs'] = [g for text in inputs for g in _graphs_of(text, m)]
     if plan['triples'] or t['tool']['exc']:
         t['out_graphs'] = t['base_graphs'] = []
